@@ -383,11 +383,65 @@ def rule_empty_block(run):
     run.end()
 
 
+def rule_call_and_await(run):
+    run.begin(
+        "C01.k",
+        "a called (awaited) function continues in exactly the blocks that are open at its end plus the blocks that ended "
+        "in a return - never in a common ancestor block (which would re-run the continuation in every state of a loop); "
+        "the statements evaluated before an await are not bound to the wait state (they would be repeated every clock)",
+        floor=3,
+    )
+    gen = run.idx.mod(GEN)
+    ai = gen.func("IrGenerator._apply_impl")
+    br = ot.find_branch(ai.node, ot.isinstance_test("inp", "out.Call"))
+    if br is None:
+        raise AnalysisError("anchor vanished: out.Call branch")
+    res = [b["__r"] for _n, b in P.find(br.body, "__r = self.apply(inp._code, open_blocks=open_blocks)")]
+    if len(res) != 1:
+        raise AnalysisError("out.Call: lowering of the function body not recognised")
+    r = res[0]
+    ext = P.has(br.body, "__r.extend(own_returned_blocks)", {"__r": r}) or any(P.has(br.body, f"{r}.extend(__o)") for _ in (0,))
+    run.ob(ext, "_apply_impl[out.Call]", file=gen.rel, line=br.lineno, detail="returned-blocks-added", expected="result.extend(<blocks that ended in return>)", found="ok" if ext else "missing")
+    # the first statement-level return reached on every path
+    first_ret = None
+    for st in br.body:
+        if isinstance(st, ast.Return):
+            first_ret = st
+            break
+        if any(isinstance(x, ast.Return) for x in ast.walk(st)):
+            first_ret = st
+            break
+    ok = isinstance(first_ret, ast.Return) and dotted(first_ret.value) == r
+    run.ob(ok, "_apply_impl[out.Call]", file=gen.rel, line=(first_ret.lineno if first_ret is not None else br.lineno), detail="continues-in-own-blocks", expected=f"return {r} (unconditionally)", found=src(first_ret)[:80] if first_ret is not None else "no return")
+    om = run.idx.mod("cohdl/_compiler/frontend/_prepare_ast_out.py")
+    aw = om.func("Await.__init__")
+    sup = [c for c in calls_in(aw.node) if isinstance(c.func, ast.Attribute) and c.func.attr == "__init__"]
+    bs = None
+    for c in sup:
+        for k in c.keywords:
+            if k.arg == "bound_statements":
+                bs = k.value
+    p0 = aw.node.args.args[1].arg
+    ok = isinstance(bs, ast.List) and len(bs.elts) == 1 and dotted(bs.elts[0]) == p0
+    run.ob(ok, "out.Await.__init__", file=om.rel, line=aw.node.lineno, detail="bound-statements", expected=f"bound_statements=[{p0}] (only the awaited expression itself)", found=src(bs)[:70] if bs is not None else "?")
+    run.end()
+
+
+def rule_state_root(run):
+    from . import c08
+    c08.rule_state_root(run)      # at_start() asks whether the WHOLE first state is empty
+
+
+def rule_not_a_return(run):
+    from . import c10
+    c10.rule_returns_always(run)  # break / continue / loops do not end the coroutine: code after them must be lowered
+
+
 def rule_if_merge(run):
     c03.rule_if_merge(run)
 
 
-RULES = [rule_transitions, rule_states, rule_edges, rule_fail_closed, rule_loop_state, rule_clock_costs, rule_if_merge, rule_straight_line, rule_with_exit, rule_return_paths, rule_empty_block]
+RULES = [rule_transitions, rule_states, rule_edges, rule_fail_closed, rule_loop_state, rule_clock_costs, rule_if_merge, rule_straight_line, rule_with_exit, rule_return_paths, rule_empty_block, rule_call_and_await, rule_state_root, rule_not_a_return]
 LEVEL = "other"
 EXPLANATION = (
     "Only the structural core of the coroutine->state-machine translation is decided: transitions are front-inserted "
